@@ -48,8 +48,14 @@ func (c *checkSchema) checkType(name string, typ ischema.Type, ss map[string]isc
 
 		// Return an error with the full set of bytes of the root schema.
 		if jErr, ok := r.(kit.JSchemaError); ok {
-			jErr.SetFile(typ.RootFile)
-			jErr.SetIndex(bytes.Index(jErr.Index()) + typ.Begin)
+			// Re-base the position only when it belongs to this type's own text.
+			// A node inherited through allOf (or an unnamed type met through its
+			// owner) keeps the file of the text it was written in; giving it this
+			// type's file would pair that file with a foreign index.
+			if jErr.Filename() == "" || typ.RootFile == nil || jErr.Filename() == typ.RootFile.Name() {
+				jErr.SetFile(typ.RootFile)
+				jErr.SetIndex(bytes.Index(jErr.Index()) + typ.Begin)
+			}
 			jErr.SetIncorrectUserType(name)
 			panic(jErr)
 		}
